@@ -194,7 +194,8 @@ class Repo:
     def blame(self, path, rev=None, extra=()):
         """Per-line attribution: list (1-based index = position+1) of session hash or None (human),
         from `git-ai blame --json`. Returns None when the command fails."""
-        args = ["blame", "--json"] + list(extra) + ([rev] if rev else []) + [path]
+        # git-ai blame has no `--` separator: a leading dash must be hidden behind "./"
+        args = ["blame", "--json"] + list(extra) + [("./" + path) if path.startswith("-") else path]
         rc, out, err = self.ai(*args)
         if rc != 0:
             return None
